@@ -69,6 +69,21 @@ func buildFrame(spec string, realSig bool) []byte {
 			id.PublicKey = mustBin(pub)
 		case "inf":
 			id.PublicKey = []byte{0}
+		case "inf0":
+			// every encoding the decoder maps to the identity, not only the canonical one: a FULL-LENGTH
+			// buffer whose tag byte is 0 is the point at infinity whatever follows
+			id.PublicKey = make([]byte, 129)
+			for i := 1; i < len(id.PublicKey); i++ {
+				id.PublicKey[i] = byte(0xa5 ^ i)
+			}
+		case "inf1":
+			// tag 1 and four zero coordinates: special-cased as the point at infinity
+			id.PublicKey = make([]byte, 129)
+			id.PublicKey[0] = 1
+		case "trunc":
+			_, pub := remoteKey()
+			b := mustBin(pub)
+			id.PublicKey = b[:len(b)-1]
 		case "bad":
 			id.PublicKey = []byte{1, 2, 3}
 		}
